@@ -30,7 +30,12 @@
                      output can be read back (no MixedPhasingError or any other exception)
      VcfReproduces   phased VCF g as only phase input: every phase set of g with >= 2 shared heterozygous
                      variants (and at most 7 sets overlapping anywhere = 14 pseudo reads <= cap 15) comes
-                     back with the same members and the same alleles up to a flip of the whole set *)
+                     back with the same members and the same alleles up to a flip of the whole set
+     VcfReproducesAnyContigLayout
+                     event PhaseLayout (src, tag, targets, skip, exc, g, contigs = per contig of a three-contig variant
+                     file [cov per sample, out]): the same demand on every contig of the variant file for which the
+                     phase-input file of the sample has records - in whatever order the phase-input files list their
+                     contigs, whichever contigs they lack or have in addition *)
 EXTENDS VcfModel, Json, IOUtils, TLC
 Trace == ndJsonDeserialize(IOEnv.TRACE_FILE)
 VARIABLES l, files, runs
@@ -91,6 +96,26 @@ VcfReproduces(e) ==
                 Bs == SetsOf(e.g, s, H) IN
             FitsCap(Bs, H) => \A B \in Bs : Cardinality(B) >= 2 => SetReproduced(e, e.g, s, H, B)
 
+(* ---- the same on a variant file with several contigs, whatever the contig layout of the phase-input files: a contig of the
+        variant file for which the file that phases sample s has records (cov[s]) must get every such set back; src and g are
+        the single-contig files every contig is a (shifted) copy of ---- *)
+OnContig(e, c) == [tag |-> e.tag, skip |-> e.skip, out |-> c.out]
+LayoutShape(e) == \A k \in DOMAIN e.contigs : /\ Len(e.contigs[k].out.recs) = Len(files[e.src].recs)
+                                              /\ \A s \in Tgt(e) : s \in DOMAIN e.contigs[k].cov
+LayoutReproduces(e) ==
+    \A k \in DOMAIN e.contigs :
+        LET c == e.contigs[k]
+            x == OnContig(e, c) IN
+        \A s \in Tgt(e) : c.cov[s] =>
+            LET H == SharedHet(x, files[e.src], e.g, s)
+                Bs == SetsOf(e.g, s, H) IN
+            FitsCap(Bs, H) => \A B \in Bs : Cardinality(B) >= 2 => SetReproduced(x, e.g, s, H, B)
+JudgeLayout(e) ==
+    IF e.src \notin DOMAIN files THEN Fail(e, "UnknownSource")
+    ELSE IF e.exc # "" THEN Fail(e, "Returns")
+    ELSE IF ~LayoutShape(e) THEN Fail(e, "RecordsKept")
+    ELSE Check(e, "VcfReproducesAnyContigLayout", LayoutReproduces(e))
+
 (* ---- the same run with the other tag ---- *)
 Key(e) == <<e.src, e.key, e.targets>>
 SameStatements(e, o) ==          \* o = the earlier run [tag, out, dec]
@@ -113,6 +138,7 @@ Judge(e) ==
     CASE e.ev = "Load"    -> TRUE
       [] e.ev = "Phase"   -> JudgePhase(e)
       [] e.ev = "Unphase" -> Check(e, "Returns", e.exc = "")
+      [] e.ev = "PhaseLayout" -> JudgeLayout(e)
       \* two outputs (one per tag) as the two contigs of ONE file - what per-chromosome runs with different --tag values leave
       \* behind: each contig must decode exactly as it does alone (decoding has no state that crosses contigs)
       [] e.ev = "Concat"  -> Check(e, "ContigsDecodeIndependently",
